@@ -31,8 +31,9 @@ import (
 	"github.com/pixelbender/go-sdp/sdp"
 )
 
-// Generous watchdog: only ever hit when the server neither answers nor closes.
-var Watchdog = 20 * time.Second
+// Generous watchdog: only ever hit when the server neither answers nor closes.  It costs nothing
+// when the awaited event arrives; a busy machine must not turn into a finding.
+var Watchdog = 45 * time.Second
 
 const (
 	KResp = iota
@@ -70,6 +71,19 @@ type Conn struct {
 	// PauseRead, when set, is called by the tcp reader before every socket read with the
 	// number of bytes received so far; it may block (C13 uses it to stall mid-frame).
 	PauseRead func(total int)
+	// serverWrite (tcp), when set, is called on the SERVER side before every write of the session
+	// to its socket, with the bytes about to be written; it may block: a schedule point inside
+	// buffered.Conn.Write / Flush (the goroutine that writes is parked with whatever locks it holds).
+	serverWrite atomic.Value // func(p []byte)
+	sendSync    func(string) error
+}
+
+// SetServerWrite installs (nil: removes) the server-side socket-write schedule point.
+func (c *Conn) SetServerWrite(f func(p []byte)) {
+	if f == nil {
+		f = func([]byte) {}
+	}
+	c.serverWrite.Store(f)
 }
 
 func Silence() { xlog.ReplaceGlobal(xlog.New(xlog.NewNopCore())) }
@@ -92,9 +106,21 @@ func acceptors() {
 
 // pipeConn gives the server side of a net.Pipe a TCP-looking peer address
 // (asUDPConsumer cuts the port off RemoteAddr().String()).
-type pipeConn struct{ net.Conn }
+type pipeConn struct {
+	net.Conn
+	c *Conn
+}
 
 func (pipeConn) RemoteAddr() net.Addr { return &net.TCPAddr{IP: net.IPv4(127, 0, 0, 1), Port: 50554} }
+
+func (p pipeConn) Write(b []byte) (int, error) {
+	if p.c != nil {
+		if f, ok := p.c.serverWrite.Load().(func([]byte)); ok {
+			f(b)
+		}
+	}
+	return p.Conn.Write(b)
+}
 
 func wsServer() string {
 	acceptors()
@@ -250,31 +276,67 @@ func DialTCP(readChunk int) *Conn {
 	c := &Conn{Flavour: "tcp", items: make(chan Item, 4096)}
 	// net.Pipe is unbuffered: a write blocks until the server reads.  A real socket buffers, so
 	// requests are queued and written by a sender goroutine (order kept).
-	sendQ := make(chan string, 1024)
+	type sendItem struct {
+		s    string
+		done chan error
+	}
+	sendQ := make(chan sendItem, 1024)
 	var sendErr atomic.Value
 	go func() {
-		for s := range sendQ {
+		for it := range sendQ {
 			cli.SetWriteDeadline(time.Now().Add(Watchdog))
-			if _, err := cli.Write([]byte(s)); err != nil {
+			_, err := cli.Write([]byte(it.s))
+			if err != nil {
 				sendErr.Store(err)
+			}
+			if it.done != nil {
+				it.done <- err
 			}
 		}
 	}()
-	c.send = func(s string) error {
+	var closeMu sync.Mutex
+	closedQ := false
+	enqueue := func(it sendItem) error {
 		if e, ok := sendErr.Load().(error); ok {
 			return e
 		}
+		closeMu.Lock()
+		defer closeMu.Unlock()
+		if closedQ {
+			return fmt.Errorf("connection closed by the client")
+		}
 		select {
-		case sendQ <- s:
+		case sendQ <- it:
 			return nil
 		default:
 			return fmt.Errorf("send queue full")
 		}
 	}
-	var closeOnce sync.Once
-	c.closeFn = func() { closeOnce.Do(func() { cli.Close(); close(sendQ) }) }
+	c.send = func(s string) error { return enqueue(sendItem{s: s}) }
+	// net.Pipe is synchronous: the write returns when the server has READ the whole request
+	c.sendSync = func(s string) error {
+		done := make(chan error, 1)
+		if err := enqueue(sendItem{s, done}); err != nil {
+			return err
+		}
+		select {
+		case err := <-done:
+			return err
+		case <-time.After(Watchdog + time.Second):
+			return fmt.Errorf("request not read by the server")
+		}
+	}
+	c.closeFn = func() {
+		closeMu.Lock()
+		defer closeMu.Unlock()
+		if !closedQ {
+			closedQ = true
+			cli.Close()
+			close(sendQ)
+		}
+	}
 	acceptors()
-	rtspAccept(pipeConn{srv})
+	rtspAccept(pipeConn{srv, c})
 	go func() {
 		var src io.Reader = &teeReader{c, cli}
 		size := 4096
@@ -440,6 +502,15 @@ func splitWsp(m string) (map[string]string, string) {
 // Send writes one RTSP request (text) to the session.
 func (c *Conn) Send(req string) error { return c.send(req) }
 
+// SendSync (tcp) returns when the server has read the whole request from its socket
+// (other flavours: same as Send).
+func (c *Conn) SendSync(req string) error {
+	if c.sendSync != nil {
+		return c.sendSync(req)
+	}
+	return c.send(req)
+}
+
 // Next returns the next item, or (Item{}, false) when the watchdog expires.
 func (c *Conn) Next() (Item, bool) {
 	select {
@@ -449,11 +520,12 @@ func (c *Conn) Next() (Item, bool) {
 		// the server neither answered nor closed: reported by the caller; do not let every
 		// following case of this run wait for the full watchdog again
 		nextExpired++
+		Expiries++
 		switch {
-		case nextExpired > 5:
-			nextBudget = 100 * time.Millisecond
+		case nextExpired > 8:
+			nextBudget = 500 * time.Millisecond
 		default:
-			nextBudget = time.Second
+			nextBudget = 3 * time.Second
 		}
 		return Item{}, false
 	}
@@ -657,6 +729,34 @@ var nextBudget = Watchdog
 var nextExpired int
 var waitExpired int
 
+// Expiries counts the watchdog expiries of Next / WaitUntil so far.  A harness compares it before
+// and after a case: a case during which a watchdog expired is re-run alone with FullBudgets()
+// before anything is reported (a wall-clock expiry is never by itself a finding).
+var Expiries int
+
+// FullBudgets restores the full watchdog for the next waits (used for the confirming re-run);
+// the expiry counters keep running, so a run in which everything hangs still ends.
+func FullBudgets() {
+	waitBudget = Watchdog
+	nextBudget = Watchdog
+}
+
+// Guard runs f (a direct call into the implementation) under a watchdog: false when f has not
+// returned within the budget (the goroutine is abandoned).
+func Guard(budget time.Duration, f func()) (done bool, panicked interface{}) {
+	ch := make(chan interface{}, 1)
+	go func() {
+		defer func() { ch <- recover() }()
+		f()
+	}()
+	select {
+	case p := <-ch:
+		return true, p
+	case <-time.After(budget):
+		return false, nil
+	}
+}
+
 // WaitUntil polls cond (no sleep longer than 100µs) until it holds or the budget expires.
 func WaitUntil(cond func() bool) bool {
 	deadline := time.Now().Add(waitBudget)
@@ -666,11 +766,12 @@ func WaitUntil(cond func() bool) bool {
 		}
 		if time.Now().After(deadline) {
 			waitExpired++
+			Expiries++
 			switch {
 			case waitExpired > 20:
-				waitBudget = time.Millisecond
+				waitBudget = 20 * time.Millisecond
 			default:
-				waitBudget = 50 * time.Millisecond
+				waitBudget = 500 * time.Millisecond
 			}
 			return false
 		}
